@@ -10,6 +10,7 @@ import (
 	"path/filepath"
 	"strings"
 
+	wt "github.com/hnakamur/whispertool"
 	wcmd "github.com/hnakamur/whispertool/cmd"
 
 	"verif/fw"
@@ -49,7 +50,7 @@ func init() {
 var c16Cmds = []string{"view", "view-raw", "diff", "copy", "sum", "sum-copy", "sum-diff", "generate"}
 var c16Windows = []string{"default", "past", "future", "beyond-archive0", "beyond-all", "degenerate", "inverted"}
 var c16TextOuts = []string{"none", "stdout", "file", "missing-dir", "directory", "dev-full"}
-var c16Envs = []string{"ok", "src-missing", "src-truncated", "src-other-layout", "src-other-layout-points", "sources-differ-in-points", "src-corrupt-last-archive", "dest-other-layout-points", "dest-unwritable", "dest-missing", "dest-corrupt-method", "generate-dest-exists"}
+var c16Envs = []string{"ok", "src-missing", "src-truncated", "src-other-layout", "src-other-layout-points", "sources-differ-in-points", "src-corrupt-last-archive", "dest-other-layout-points", "dest-unwritable", "dest-missing", "dest-corrupt-method", "generate-dest-exists", "generate-no-fill"}
 
 type c16World struct {
 	root       string
@@ -260,6 +261,9 @@ func c16Eval(c *fw.Ctx, k c16Case) (sig, desc string, nontrivial bool, outcome s
 	case "generate":
 		cmd = &wcmd.GenerateCommand{}
 		args = append(args, "-dest", genDest, "-agg-method", "sum", "-retentions", "1s:2s,2s:6s", "-max", "5")
+		if k.Env == "generate-no-fill" { // only the (empty) file is asked for: it must be there, header included
+			args = append(args, "-fill=false")
+		}
 	}
 	fs := flag.NewFlagSet(k.Cmd, flag.ContinueOnError)
 	fs.SetOutput(io.Discard)
@@ -459,7 +463,134 @@ func c16Eval(c *fw.Ctx, k c16Case) (sig, desc string, nontrivial bool, outcome s
 	return "", "", true, outcome
 }
 
+// ---- several items, one of which cannot be processed: the run as a whole must not report success, wherever the
+// failing item stands in the order of processing; without a fault every item's work is done.
+
+type c16MultiCase struct {
+	Kind  string `json:"kind"` // multi-item
+	Cmd   string `json:"cmd"`
+	Fault string `json:"fault"` // none | truncated | corrupt-method | files-differ-in-layout
+	Pos   int    `json:"failing_item"`
+}
+
+func c16MultiEval(c *fw.Ctx, k c16MultiCase) (sig, desc string) {
+	ld := LayoutByTag("L4")
+	l := wsp.Layout{Archs: ld.Archs, Method: 2, XFF: 0}
+	now := Clocks(ld.Archs, false, []string{"mid"})[1]
+	root := filepath.Join(c.Dir, "c16multi")
+	os.RemoveAll(root)
+	sbase, dbase := filepath.Join(root, "s"), filepath.Join(root, "d")
+	items := []string{"x", "y", "z"}
+	sums := map[string][]*ExpSeries{}
+	for ii, it := range items {
+		var files [][]wsp.Ring
+		for f, n := range []string{"a.wsp", "b.wsp"} {
+			r := contentByCode(l, now, c10Choices(f, 3), []int{(ii + f) % 3, 1, (ii + 1) % 3, 2, 1})
+			(&BFile{L: l, Rings: r}).Write(filepath.Join(sbase, "it", it, n))
+			files = append(files, r)
+		}
+		sums[it], _ = ExpSum(l, files, -1, 0, now, now)
+		dst := EmptyRings(l)
+		if k.Cmd == "sum-diff" { // the destination already holds the sum: only the fault can keep the run from being clean
+			for i, e := range sums[it] {
+				for j, v := range e.Vals {
+					if !math.IsNaN(v) {
+						t := e.Shape.From + int64(j)*e.Shape.Step
+						dst[i][uint32(t/e.Shape.Step)%l.Archs[i].N] = wsp.Slot{T: uint32(t), V: v}
+					}
+				}
+			}
+		}
+		(&BFile{L: l, Rings: dst}).Write(filepath.Join(dbase, "it", it, "sum.wsp"))
+	}
+	if k.Fault != "none" {
+		a := filepath.Join(sbase, "it", items[k.Pos], "a.wsp")
+		switch k.Fault {
+		case "truncated":
+			os.Truncate(a, 21)
+		case "corrupt-method":
+			b, _ := os.ReadFile(a)
+			b[3] = 99
+			os.WriteFile(a, b, 0644)
+		case "files-differ-in-layout":
+			o := LayoutByTag("L5")
+			(&BFile{L: wsp.Layout{Archs: o.Archs, Method: 2}, Rings: EmptyRings(wsp.Layout{Archs: o.Archs})}).Write(a)
+		}
+	}
+	var cmd Executor
+	switch k.Cmd {
+	case "sum":
+		cmd = &wcmd.SumCommand{SrcBase: sbase, ItemPattern: "it/*", SrcPattern: "*.wsp", ArchiveID: -1, TextOut: ""}
+	case "sum-copy":
+		cmd = &wcmd.SumCopyCommand{SrcBase: sbase, DestBase: dbase, ItemPattern: "it/*", SrcPattern: "*.wsp", DestRelPath: "sum.wsp", AggregationMethod: wt.Sum, ArchiveInfoList: archList(l.Archs), ArchiveID: -1, TextOut: ""}
+	case "sum-diff":
+		cmd = &wcmd.SumDiffCommand{SrcBase: sbase, DestBase: dbase, ItemPattern: "it/*", SrcPattern: "*.wsp", DestRelPath: "sum.wsp", ArchiveID: -1, TextOut: ""}
+	}
+	var err error
+	var pn string
+	WithStdout(c.Dir, func() { err, pn = RunCommand(now, cmd) })
+	cls := classify(err, pn)
+	ctx := fmt.Sprintf("%s over items x,y,z; fault %s in item %s", k.Cmd, k.Fault, items[k.Pos])
+	if cls == "panic" {
+		return "C16/" + k.Cmd + "/panic/multi-item", ctx + ": " + firstLine(pn)
+	}
+	if k.Fault != "none" {
+		if cls == "nil" {
+			return "C16/" + k.Cmd + "/silent-success/one-of-several-items-failed", ctx + ": the run reported success although that item could not be processed"
+		}
+		return "", ""
+	}
+	if cls != "nil" {
+		return "C16/" + k.Cmd + "/failed-without-fault/multi-item", fmt.Sprintf("%s: %s (%v)", ctx, cls, err)
+	}
+	if k.Cmd == "sum-copy" {
+		for _, it := range items {
+			b, _ := os.ReadFile(filepath.Join(dbase, "it", it, "sum.wsp"))
+			f, perr := wsp.Parse(b)
+			var got []wsp.Ring
+			if perr == nil {
+				got, perr = f.Rings()
+			}
+			if perr != nil {
+				return "C16/sum-copy/effect/no-destination/multi-item", ctx + ": item " + it + ": " + perr.Error()
+			}
+			have, _ := ExpRead(l, got, -1, 0, now, now)
+			for i, e := range sums[it] {
+				for j, v := range e.Vals {
+					if !valEqual(v, have[i].Vals[j]) {
+						return "C16/sum-copy/effect/destination/multi-item", fmt.Sprintf("%s: item %s archive %d value %d is %v, the sum is %v", ctx, it, i, j, have[i].Vals[j], v)
+					}
+				}
+			}
+		}
+	}
+	return "", ""
+}
+
+func c16Multi(c *fw.Ctx) {
+	for _, cmd := range []string{"sum", "sum-copy", "sum-diff"} {
+		for _, fault := range []string{"none", "truncated", "corrupt-method", "files-differ-in-layout"} {
+			for pos := 0; pos < 3; pos++ {
+				if fault == "none" && pos > 0 {
+					continue
+				}
+				k := c16MultiCase{Kind: "multi-item", Cmd: cmd, Fault: fault, Pos: pos}
+				sig, desc := c16MultiEval(c, k)
+				c.Count("evaluations", 1)
+				c.Count("distinct_nontrivial", 1)
+				c.Outcome(cmd + "/multi-item")
+				if sig != "" {
+					c.Violate(sig, desc, 20+pos, k, "")
+				}
+			}
+		}
+	}
+}
+
 func runC16(c *fw.Ctx) {
+	if c.Shard == 0 {
+		c16Multi(c)
+	}
 	worlds := 2
 	if c.Thorough() {
 		worlds = 6 // further contents (see c16Build): sparse, dense, all-absent sources, destination = source ...
@@ -474,7 +605,7 @@ func runC16(c *fw.Ctx) {
 					}
 					for _, to := range c16TextOuts {
 						for _, env := range c16Envs {
-							if env == "generate-dest-exists" && cmd != "generate" {
+							if (env == "generate-dest-exists" || env == "generate-no-fill") && cmd != "generate" {
 								continue
 							}
 							if cmd == "generate" && strings.HasPrefix(env, "src-") {
@@ -524,6 +655,11 @@ func runC16(c *fw.Ctx) {
 }
 
 func replayC16(c *fw.Ctx, raw json.RawMessage) (bool, string) {
+	var mk c16MultiCase
+	if json.Unmarshal(raw, &mk) == nil && mk.Kind == "multi-item" {
+		sig, desc := c16MultiEval(c, mk)
+		return sig != "", desc
+	}
 	var k c16Case
 	if err := json.Unmarshal(raw, &k); err != nil {
 		return false, err.Error()
